@@ -8,9 +8,9 @@ ROLES = {
 BLOCKS = {("btc", "taker"): "{3, 504}", ("btc", "maker"): "{1, 1008}", ("lbtc", "taker"): "{2, 60}", ("lbtc", "maker"): "{1, 10080}"}
 
 
-def rec(name, chain, inits, steps, faults=0, crashes=0, swaps=1, adversary=False, blocks=None, side="taker", ver="current", neglimit=False, minmsat=100000000):
+def rec(name, chain, inits, steps, faults=0, crashes=0, swaps=1, adversary=False, blocks=None, side="taker", ver="current", neglimit=False, minmsat=100000000, junk=False):
     return ('[name |-> "%s", chain |-> "%s", inits |-> {%s}, maxsteps |-> %d, maxfaults |-> %d, maxcrashes |-> %d, maxswaps |-> %d, '
-            'blocks |-> %s, adversary |-> %s, ver |-> "' + ver + '", neglimit |-> ' + ("TRUE" if neglimit else "FALSE") + ', minmsat |-> %d]' % minmsat) % (name, chain, ", ".join('"%s"' % i for i in inits), steps, faults, crashes, swaps,
+            'blocks |-> %s, adversary |-> %s, ver |-> "' + ver + '", neglimit |-> ' + ("TRUE" if neglimit else "FALSE") + ', minmsat |-> %d, junk |-> %s]' % (minmsat, "TRUE" if junk else "FALSE")) % (name, chain, ", ".join('"%s"' % i for i in inits), steps, faults, crashes, swaps,
                                                    blocks or BLOCKS[(chain, side)], "TRUE" if adversary else "FALSE")
 
 
@@ -32,6 +32,8 @@ def configs(tier):
     out.append(rec("out_sender_btc_premium", "btc", ["swapout"], 5 if deep else 4, side="taker", neglimit=True))
     out.append(rec("in_sender_btc_premium", "btc", ["swapin"], 4 if deep else 3, side="maker", neglimit=True))
     # C11: a configured minimum that is not a multiple of 1000 msat, requests at the boundary
+    # C21: junk on the wire (every peerswap type number x malformed payloads, foreign / even / non-hex types, oversized payloads) in every early state
+    out.append(rec("junk_btc", "btc", ["swapout", "swapin", "swap_out_request", "swap_in_request"], 3 if deep else 2, adversary=True, blocks="{1}", junk=True))
     out.append(rec("receivers_btc_minamount", "btc", ["swap_out_request", "swap_in_request"], 2, swaps=2, adversary=True, blocks="{1}", minmsat=100000500))
     # C26: a maker's swap ends in a CSV refund, then the same peer asks again / the node initiates again
     out.append(rec("in_sender_btc_quar", "btc", ["swapin", "swap_out_request", "swapout"], 6 if deep else 5, swaps=2, side="maker"))
